@@ -332,4 +332,33 @@ def FaceOK (dim3 : Bool) (f : Face) : Prop :=
 instance (dim3 : Bool) (f : Face) : Decidable (FaceOK dim3 f) := by
   unfold FaceOK; exact inferInstance
 
+
+/-! ### one-cell grids with Dirichlet data (hypotheses of `nonsingular_one_cell_dirichlet`) -/
+
+/-- a boundary face of a one-cell grid (its only side is cell 0) with Dirichlet conditions in every direction -/
+def DirFace0 (f : Face) : Prop :=
+  (f.sides.length = 1 ∧ ∀ s ∈ f.sides, s.cell = 0) ∧ f.bcx = .dir ∧ f.bcy = .dir ∧ f.bcz = .dir
+
+instance (f : Face) : Decidable (DirFace0 f) := by unfold DirFace0; exact inferInstance
+
+/-- every face is a Dirichlet face of the single cell 0 -/
+def OneCellDir (fs : Faces) : Prop := ∀ p ∈ fs, DirFace0 p.1
+
+instance (fs : Faces) : Decidable (OneCellDir fs) := by unfold OneCellDir; exact inferInstance
+
+/-- coefficients of `n.x`, `n.y`, `n.z` in the rotation + pressure part of the stress row `d` -/
+def momCx (st : State) : Dir → Rat
+  | .x => st.p 0
+  | .y => (st.r 0).z
+  | .z => -(st.r 0).y
+def momCy (st : State) : Dir → Rat
+  | .x => -(st.r 0).z
+  | .y => st.p 0
+  | .z => (st.r 0).x
+def momCz (st : State) : Dir → Rat
+  | .x => (st.r 0).y
+  | .y => -(st.r 0).x
+  | .z => st.p 0
+
+
 end PorepyVerif.C16
